@@ -237,20 +237,19 @@ rewrites = [['\bwidth\(\)', 'Rect_width(this)', '1'], ['\bheight\(\)', 'Rect_hei
 static inline long long verif_area_of(Rectangle r) { return Rect_area(&r); }
 long long g_cap;
 #define OVL(lo1, hi1, lo2, hi2) ((std_min(hi1, hi2) - std_max(lo1, lo2)) > 0 ? (long long)(std_min(hi1, hi2) - std_max(lo1, lo2)) : 0LL)
-void bin_contribution(Rectangle reg, Rectangle binReg)
+void bin_contribution(Rectangle reg, Rectangle g_bin)
 __CPROVER_requires(MAGV(reg.minX) && MAGV(reg.maxX) && MAGV(reg.minY) && MAGV(reg.maxY) && reg.minX <= reg.maxX && reg.minY <= reg.maxY)
-__CPROVER_requires(MAGV(binReg.minX) && MAGV(binReg.maxX) && MAGV(binReg.minY) && MAGV(binReg.maxY) && binReg.minX <= binReg.maxX && binReg.minY <= binReg.maxY && g_cap >= 0 && g_cap <= (1LL << 60))
+__CPROVER_requires(MAGV(g_bin.minX) && MAGV(g_bin.maxX) && MAGV(g_bin.minY) && MAGV(g_bin.maxY) && g_bin.minX <= g_bin.maxX && g_bin.minY <= g_bin.maxY && g_cap >= 0 && g_cap <= (1LL << 60))
 /* C16: a region adds to a bin exactly the area of their intersection (0 when they do not overlap) */
-__CPROVER_ensures(g_cap == __CPROVER_old(g_cap) + ((OVL(reg.minX, reg.maxX, binReg.minX, binReg.maxX) > 0 && OVL(reg.minY, reg.maxY, binReg.minY, binReg.maxY) > 0) ? verif_area_of((Rectangle){std_max(reg.minX, binReg.minX), std_min(reg.maxX, binReg.maxX), std_max(reg.minY, binReg.minY), std_min(reg.maxY, binReg.maxY)}) : 0LL))
+__CPROVER_ensures(g_cap == __CPROVER_old(g_cap) + ((OVL(reg.minX, reg.maxX, g_bin.minX, g_bin.maxX) > 0 && OVL(reg.minY, reg.maxY, g_bin.minY, g_bin.maxY) > 0) ? verif_area_of((Rectangle){std_max(reg.minX, g_bin.minX), std_min(reg.maxX, g_bin.maxX), std_max(reg.minY, g_bin.minY), std_min(reg.maxY, g_bin.maxY)}) : 0LL))
 __CPROVER_assigns(g_cap)
-#define binCapacity_ij g_cap
 /*@extract
 file = "src/place_global/density_grid.cpp"
 head = 'void DensityGrid::updateBinCapacity\(const std::vector<Rectangle> &regions\)'
-slice_from = 'if \(reg\.intersects\(binReg\)\) \{'
+slice_from_after = 'for \(Rectangle reg : regions\) \{\s*for \(int i = 0; i < nbBinsX\(\); \+\+i\) \{\s*for \(int j = 0; j < nbBinsY\(\); \+\+j\) \{'
 slice_to = '\}\s*\}\s*\}\s*\}\s*$'
-rewrites = [['reg\.intersects\(binReg\)', 'Rect_intersects(&reg, binReg)', '1'], ['binCapacity_\[i\]\[j\]', 'binCapacity_ij', '1'],
-            ['Rectangle::intersection\(reg, binReg\)\.area\(\)', 'verif_area_of(Rect_intersection(reg, binReg))', '1']]
+rewrites = [['\bregion\(i, j\)', 'g_bin', '1+'], ['\b(\w+)\.intersects\((\w+)\)', 'Rect_intersects(&\1, \2)', '*'], ['binCapacity_\[i\]\[j\]', 'g_cap', '1+'],
+            ['Rectangle::intersection\(([^;]*?)\)\.area\(\)', 'verif_area_of(Rect_intersection(\1))', '1+']]
 @*/
 #endif
 
